@@ -64,3 +64,97 @@ package tglib
 //@ prop C16
 //@ ensures fields: result != nil && result.Supi == supi && result.RanUeNgapId == ranUeNgapId && result.CipheringAlg == cipheringAlg && result.IntegrityAlg == integrityAlg
 //@ ensures fresh: result.ULCount.Get() == 0 && result.DLCount.Get() == 0 && result.AmfUeNgapId == 0 && len(result.Kamf) == 0
+
+// ---- C05: RES* and the NAS key hierarchy (TS 33.501 Annex A over TS 33.220 B.2; TS 35.206 f2-f5) ----
+
+// K_AUSF (A.2) -> K_SEAF (A.6) -> K_AMF (A.7, ABBA = 0000) from CK || IK, the serving network name and SQN xor AK.
+//@ func (*RanUeContext).DerivateKamf
+//@ prop C05
+//@ opaque kdfspec.HMAC256
+//@ shape key 32
+//@ shape snName 32
+//@ shape SQN 6
+//@ shape AK 6
+//@ shape ue.Supi 20
+//@ requires supi: vcIsImsiSupi(ue.Supi)
+//@ ensures kamf: len(ue.Kamf) == 32 && vcA32(ue.Kamf) == kdfspec.Kamf(kdfspec.Kseaf(kdfspec.Kausf(vcA16(key), vcA16(key[16:]), snName, SQN), snName), ue.Supi[5:], []byte{0, 0})
+//@ assigns &ue.Kamf
+
+// K_NASenc / K_NASint (A.8): algorithm type distinguishers 01 / 02, the algorithm identity, 128 LSBs.
+//@ func (*RanUeContext).DerivateAlgKey
+//@ prop C05
+//@ opaque kdfspec.HMAC256
+//@ shape ue.Kamf 32
+//@ ensures knasenc: ue.KnasEnc == kdfspec.AlgKey(vcA32(ue.Kamf), 0x01, ue.CipheringAlg)
+//@ ensures knasint: ue.KnasInt == kdfspec.AlgKey(vcA32(ue.Kamf), 0x02, ue.IntegrityAlg)
+//@ assigns &ue.KnasEnc, &ue.KnasInt
+
+// github.com/wmnsk/milenage is executed in line (it is verified here together with the caller, not assumed).
+//@ func (*RanUeContext).DeriveRESstarAndSetKey
+//@ prop C05
+//@ opaque kdfspec.HMAC256
+//@ shape snName 32
+//@ shape rand 16
+//@ shape mcc 3
+//@ shape ue.Supi 20
+//@ shape authSubs.AuthenticationManagementField 4
+//@ shape authSubs.PermanentKey.PermanentKeyValue 32
+//@ behavior opc
+//@ shape mnc 2
+//@ shape authSubs.Opc.OpcValue 32
+//@ requires hex: vcAllHex(authSubs.PermanentKey.PermanentKeyValue) && vcAllHex(authSubs.Opc.OpcValue) && vcAllHex(authSubs.AuthenticationManagementField)
+//@ requires supi: vcIsImsiSupi(ue.Supi)
+//@ requires algs: ue.CipheringAlg <= 3 && ue.IntegrityAlg <= 3
+//@ let k := vcHex16(authSubs.PermanentKey.PermanentKeyValue)
+//@ let opc := vcHex16(authSubs.Opc.OpcValue)
+//@ let rnd := vcA16(rand)
+//@ let ck := milspec.F3(opc, k, rnd)
+//@ let ik := milspec.F4(opc, k, rnd)
+//@ let res := milspec.F2(opc, k, rnd)
+//@ let sqnak := []byte{autn[0], autn[1], autn[2], autn[3], autn[4], autn[5]}
+//@ let kamf := kdfspec.Kamf(kdfspec.Kseaf(kdfspec.Kausf(ck, ik, snName, sqnak), snName), ue.Supi[5:], []byte{0, 0})
+//@ ensures resstar: len(result) == 16 && vcA16(result) == kdfspec.RESstar(ck, ik, kdfspec.SNName(mcc, mnc), rand, res[:])
+//@ ensures kamf: len(ue.Kamf) == 32 && vcA32(ue.Kamf) == kamf
+//@ ensures knasenc: ue.KnasEnc == kdfspec.AlgKey(kamf, 0x01, old(ue.CipheringAlg))
+//@ ensures knasint: ue.KnasInt == kdfspec.AlgKey(kamf, 0x02, old(ue.IntegrityAlg))
+//@ assigns &ue.Kamf, &ue.KnasEnc, &ue.KnasInt
+// with only OP configured the result is that of the corresponding OPc = OP xor E_K(OP) (TS 35.206 4.1)
+//@ behavior op
+//@ shape mnc 2
+//@ shape authSubs.Opc.OpcValue 0
+//@ shape authSubs.Milenage.Op.OpValue 32
+//@ requires hex: vcAllHex(authSubs.PermanentKey.PermanentKeyValue) && vcAllHex(authSubs.Milenage.Op.OpValue) && vcAllHex(authSubs.AuthenticationManagementField)
+//@ requires supi: vcIsImsiSupi(ue.Supi)
+//@ requires algs: ue.CipheringAlg <= 3 && ue.IntegrityAlg <= 3
+//@ let k := vcHex16(authSubs.PermanentKey.PermanentKeyValue)
+//@ let opc := milspec.OPc(k, vcHex16(authSubs.Milenage.Op.OpValue))
+//@ let rnd := vcA16(rand)
+//@ let ck := milspec.F3(opc, k, rnd)
+//@ let ik := milspec.F4(opc, k, rnd)
+//@ let res := milspec.F2(opc, k, rnd)
+//@ let sqnak := []byte{autn[0], autn[1], autn[2], autn[3], autn[4], autn[5]}
+//@ let kamf := kdfspec.Kamf(kdfspec.Kseaf(kdfspec.Kausf(ck, ik, snName, sqnak), snName), ue.Supi[5:], []byte{0, 0})
+//@ ensures resstar: len(result) == 16 && vcA16(result) == kdfspec.RESstar(ck, ik, kdfspec.SNName(mcc, mnc), rand, res[:])
+//@ ensures kamf: len(ue.Kamf) == 32 && vcA32(ue.Kamf) == kamf
+//@ ensures knasenc: ue.KnasEnc == kdfspec.AlgKey(kamf, 0x01, old(ue.CipheringAlg))
+//@ ensures knasint: ue.KnasInt == kdfspec.AlgKey(kamf, 0x02, old(ue.IntegrityAlg))
+//@ assigns &ue.Kamf, &ue.KnasEnc, &ue.KnasInt
+//@ behavior opc_mnc3
+//@ shape mnc 3
+//@ shape authSubs.Opc.OpcValue 32
+//@ requires hex: vcAllHex(authSubs.PermanentKey.PermanentKeyValue) && vcAllHex(authSubs.Opc.OpcValue) && vcAllHex(authSubs.AuthenticationManagementField)
+//@ requires supi: vcIsImsiSupi(ue.Supi)
+//@ requires algs: ue.CipheringAlg <= 3 && ue.IntegrityAlg <= 3
+//@ let k := vcHex16(authSubs.PermanentKey.PermanentKeyValue)
+//@ let opc := vcHex16(authSubs.Opc.OpcValue)
+//@ let rnd := vcA16(rand)
+//@ let ck := milspec.F3(opc, k, rnd)
+//@ let ik := milspec.F4(opc, k, rnd)
+//@ let res := milspec.F2(opc, k, rnd)
+//@ let sqnak := []byte{autn[0], autn[1], autn[2], autn[3], autn[4], autn[5]}
+//@ let kamf := kdfspec.Kamf(kdfspec.Kseaf(kdfspec.Kausf(ck, ik, snName, sqnak), snName), ue.Supi[5:], []byte{0, 0})
+//@ ensures resstar: len(result) == 16 && vcA16(result) == kdfspec.RESstar(ck, ik, kdfspec.SNName(mcc, mnc), rand, res[:])
+//@ ensures kamf: len(ue.Kamf) == 32 && vcA32(ue.Kamf) == kamf
+//@ ensures knasenc: ue.KnasEnc == kdfspec.AlgKey(kamf, 0x01, old(ue.CipheringAlg))
+//@ ensures knasint: ue.KnasInt == kdfspec.AlgKey(kamf, 0x02, old(ue.IntegrityAlg))
+//@ assigns &ue.Kamf, &ue.KnasEnc, &ue.KnasInt
